@@ -356,8 +356,29 @@ def check_cb_wide(ctx):
         ctx.inconclusive.append("callback body never reached")
 
 
+def check_wide_result(ctx, k, tag, signed):
+    b0 = ctx.sandbox_base(32, "b0", aligned=False)
+    paths = ctx.run(k, [b0])
+    for q in paths:
+        env = dict((t, v) for (t, v) in (q.user.get("env") or []))
+        v = env.get(tag)
+        if v is None:
+            ctx.fail(q, "the guest function did not run")
+            continue
+        fits = z3.And(v >= BV(-(1 << 31), 64), v <= BV((1 << 31) - 1, 64)) if signed else z3.ULE(v, BV(0xFFFFFFFF, 64))
+        if q.status == "ret":
+            ctx.require(q, z3.And(fits, q.ret == v), "the application receives exactly the value the guest returned")
+        elif q.status == "abort":
+            ctx.require(q, z3.Not(fits), "the result is refused only when the application type cannot represent it")
+    ctx.only(paths, "ret", "abort")
+    ctx.expect(paths, ret=1, abort=1)
+
+
 def jobs(tier, seed):
     out = []
+    out.append(Job("C06_result_wide", '#include "C06_cbwide.inc"\n', [dict(name="BM wide guest int: result of a sandbox function (int)", fn=check_wide_result, kw=dict(k="k_wide_result_int", tag=46, signed=True), unwind=300),
+                                                                      dict(name="BM wide guest int: result of a sandbox function (unsigned)", fn=check_wide_result, kw=dict(k="k_wide_result_uint", tag=47, signed=False), unwind=300)],
+                   native=False))
     out.append(Job("C06_cb_wide", '#include "C06_cbwide.inc"\n', [dict(name="BM wide guest int: callback arguments narrow faithfully or are refused", fn=check_cb_wide, unwind=300)], native=False))
     froms = C.ALL_INTS + [C.BOOL]
     for to in C.ALL_INTS:
